@@ -429,6 +429,9 @@ class Check:
         if self.violations:
             rdir = os.path.join(VERIF, "replays", self.prop)
             os.makedirs(rdir, exist_ok=True)
+            for old in os.listdir(rdir):
+                if old.endswith(".json"):
+                    os.unlink(os.path.join(rdir, old))
             seen = set()
             n = 0
             for v in self.violations:
@@ -436,7 +439,7 @@ class Check:
                     continue
                 seen.add(v["key"])
                 n += 1
-                if n > 20:
+                if n > (200 if os.environ.get("NV_CLASSES") else 20):
                     break
                 name = re.sub(r"[^A-Za-z0-9_.-]+", "_", v["key"])[:80]
                 path = os.path.join(rdir, "%s.json" % name)
